@@ -86,7 +86,11 @@ class SimulatedExecutionEnvironment(ExecutionEnvironment):
         deterministic_problem = up.model.Problem(problem.name, problem.environment)
 
         for fluent in problem.fluents:
-            default_value = problem.initial_defaults.get(fluent.type, False)
+            # per-fluent defaults (which include the per-type ones); Boolean fluents
+            # without any default keep the closed-world fallback
+            default_value = problem.fluents_defaults.get(fluent, None)
+            if default_value is None and fluent.type.is_bool_type():
+                default_value = False
             deterministic_problem.add_fluent(
                 fluent, default_initial_value=default_value
             )
